@@ -13,8 +13,41 @@ pub const T_COIL: u8 = 0;
 pub const T_DISCRETE: u8 = 1;
 pub const T_HOLDING: u8 = 2;
 pub const T_INPUT: u8 = 3;
-/// reading this holding / input register takes 400 ms (real time)
+/// reading this holding / input register takes as long as the harness keeps the gate closed (at least 400 ms, real
+/// time, when the gate is open; at most 6 s): "the session is busy inside a slow handler" does not depend on how
+/// fast the harness itself gets to run
 pub const SLOW_REGISTER: u16 = 9999;
+
+pub struct Gate {
+    closed: Mutex<bool>,
+    cv: std::sync::Condvar,
+}
+
+pub static SLOW_GATE: Gate = Gate { closed: Mutex::new(false), cv: std::sync::Condvar::new() };
+
+impl Gate {
+    pub fn close(&self) {
+        *self.closed.lock().unwrap_or_else(|e| e.into_inner()) = true;
+    }
+    pub fn open(&self) {
+        *self.closed.lock().unwrap_or_else(|e| e.into_inner()) = false;
+        self.cv.notify_all();
+    }
+    fn pass(&self) {
+        let t0 = std::time::Instant::now();
+        let mut g = self.closed.lock().unwrap_or_else(|e| e.into_inner());
+        let mut waited = false;
+        while *g && t0.elapsed() < std::time::Duration::from_secs(6) {
+            waited = true;
+            let (g2, _) = self.cv.wait_timeout(g, std::time::Duration::from_millis(50)).unwrap_or_else(|e| e.into_inner());
+            g = g2;
+        }
+        drop(g);
+        if !waited {
+            std::thread::sleep(std::time::Duration::from_millis(400));
+        }
+    }
+}
 
 #[derive(Clone, Debug)]
 pub struct Hole {
@@ -86,7 +119,7 @@ impl DbHandler {
         self.sink.read(self.u, t, a, out);
         if a == SLOW_REGISTER {
             // a slow application handler: the session is busy inside the handler for a while
-            std::thread::sleep(std::time::Duration::from_millis(400));
+            SLOW_GATE.pass();
         }
         r
     }
